@@ -182,6 +182,8 @@ class BuiltinsBase:
         return I(r, ty)
 
     def cast(self, v, ty):
+        if ty in ("opaque", None) or isinstance(v, (St, Opaque, Clo, FnV)) and ty not in V.INT_RANGES:
+            return v        # casts to trait objects / pointers do not change the value
         if isinstance(v, I):
             if ty in ("f64", "f32"):
                 return self.to_f(v)
